@@ -76,12 +76,31 @@ def _sib_descs(case, excluded=None):
         base = case["bases"][sb["b"] % len(case["bases"])]
         names = rel[sb["b"] % len(case["bases"])]
         togs = [names[t % len(names)] for t in menu[sb["m"] % len(menu)]] if names else []
+        if case.get("bindsrc") and i % 4 and "bind_src%d" % (i % 4) in names:
+            togs.append("bind_src%d" % (i % 4))  # siblings cycle through the four ways a named bind gets its value
         if case.get("typearg") and i % 2 == 1 and "type_arg" in names:
             togs.append("type_arg")  # every other sibling uses the other member of a type-argument pair
         if case.get("nocache") and i % 2 == 1 and "nocache_type" in names:
             togs.append("nocache_type")  # every other sibling has no cache key at all (oracle 3)
         togs = list(dict.fromkeys(togs))
         out.append((sb["b"] % len(case["bases"]), tuple(sorted(togs)), G.apply_toggles(base, togs), sb))
+    if not case.get("pinned"):
+        # known finding C02/cache-hit/required-flag-from-cached-bindparam: a statement whose named bind gets its value through
+        # .params() (bind source 3) must not share a cache entry with siblings that carry the value / callable_ on the bindparam
+        # (judged over the whole history: two bases may be structurally equal and share cache entries)
+        srcs = set()
+        for _, _, d, _ in out:
+            G._walk(d, lambda n: srcs.add((n[2] if len(n) > 2 else 0) % 4) and False if n[0] == "bp" else False)
+        if 3 in srcs and srcs & {1, 2}:
+            def _to_exec(n):
+                if n[0] == "bp" and len(n) > 2 and n[2] % 4 == 3:
+                    n[2] = 0
+                    if excluded is not None:
+                        excluded.append("params")
+                return False
+
+            for _, _, d, _ in out:
+                G._walk(d, _to_exec)
     return out
 
 
@@ -230,15 +249,17 @@ def _shape(c):
     }
 
 
-def _params_of(c, params, extracted=None):
+def _params_of(c, params, extracted=None, collected=None):
+    """as DefaultExecutionContext._init_compiled calls it: the statement's own .params() values travel in the cache
+    key (CacheKey.params) and are handed over as _collected_params"""
     ps = params if isinstance(params, list) else [params]
     out = []
     for p in ps:
         try:
-            d = c.construct_params(p, extracted_parameters=extracted, escape_names=False)
+            d = c.construct_params(p, extracted_parameters=extracted, escape_names=False, _collected_params=collected)
             out.append(sorted((str(k), repr(v)) for k, v in d.items()))
         except sa_exc.SQLAlchemyError as e:
-            out.append(("error", type(e).__name__))
+            out.append(("error", type(e).__name__, str(e)[:45]))
     return out
 
 
@@ -291,8 +312,17 @@ def _key_soundness(built, dialects, ctx_classes, descs=None):
                 if c1 is None:
                     continue
                 # the cached form of statement i, used for statement j, must yield j's values
-                want = _params_of(c2, built[j].params)
-                got = _params_of(c1, built[j].params, extracted=keys[j].bindparams)
+                want = _params_of(c2, built[j].params, collected=keys[j].params)
+                got = _params_of(c1, built[j].params, extracted=keys[j].bindparams, collected=keys[j].params)
+                if got != want and any(isinstance(g, tuple) and g[0] == "error" and "A value is required" in g[-1] for g in got) and not any(
+                    isinstance(w, tuple) and w[0] == "error" for w in want
+                ):
+                    raise Violation(
+                        "C02/cache-hit/required-flag-from-cached-bindparam",
+                        f"compiled form of statement {i} (its named bind has no value of its own: the value came through .params()) used for statement {j}, whose "
+                        f"bindparam carries a value / callable_: 'A value is required' - the required flag is read from the cached statement's bindparam ({dname})",
+                        observed=got, expected=want,
+                    )
                 if got != want:
                     raise Violation(
                         "C02/key-soundness/extracted-parameters-wrong",
@@ -306,7 +336,9 @@ def _key_soundness(built, dialects, ctx_classes, descs=None):
 def check_history(case, ctx):
     excluded = []
     sibs = _sib_descs(case, excluded)
-    for _ in excluded:
+    for _ in [x for x in excluded if x == "params"]:
+        ctx.exclude("statement.params() as bind source next to value / callable_ siblings replaced by an execute()-time parameter (known finding C02/cache-hit/required-flag-from-cached-bindparam)")
+    for _ in [x for x in excluded if x != "params"]:
         ctx.exclude("type pair reproducing a known finding (with_variant mapping / Enum name+members not in the cache key) replaced by a regular type family")
     n = len(sibs)
     classes = set()
@@ -360,6 +392,19 @@ def check_history(case, ctx):
         classes.add("hits-warm:%s" % ("0" if not hit_warm else "1-3" if hit_warm <= 3 else "4+"))
         if one_apart:
             classes.add("one-toggle-apart")
+        # bind-source siblings: same base whose named bind gets its value in different ways (equal cache keys)
+        for bi in range(len(case["bases"])):
+            srcs = []
+            for b_, t, d, _ in sibs:
+                if b_ == bi:
+                    found = []
+                    G._walk(d, lambda n_: found.append(n_[2] if len(n_) > 2 else 0) or True if n_[0] == "bp" else False)
+                    if found:
+                        srcs.append(found[0] % 4)
+            if len(set(srcs)) >= 2:
+                classes.add("bind-source-toggled")
+                if any(a != 2 and 2 in srcs[i + 1:] for i, a in enumerate(srcs)):
+                    classes.add("bind-source:non-callable-then-callable")
         # type-argument siblings: same base executed with both members of a type-argument pair
         for bi in range(len(case["bases"])):
             with_t = [d for b_, t, d, _ in sibs if b_ == bi and "type_arg" in t]
@@ -436,6 +481,7 @@ def _histories(draw):
         "perm": draw(st.lists(st.integers(0, 30), max_size=8)),
         "nocache": draw(st.sampled_from([0, 0, 0, 0, 0, 0, 1])),
         "typearg": draw(st.sampled_from([0, 1, 1, 1])),
+        "bindsrc": draw(st.sampled_from([0, 1, 1, 1])),
     }
 
 
